@@ -327,6 +327,33 @@ func ruleCompletionCloses(p *Prog, r *Out) {
 		okk = set && closed
 		return true
 	})
+	// the walk over the table: every stream is visited, and the table is not edited under the walk
+	walkAll, noEdit, walks := true, true, 0
+	ast.Inspect(fl.Body, func(n ast.Node) bool {
+		rs, ok := n.(*ast.RangeStmt)
+		if !ok || p.text(rs.X) != "strms" {
+			return true
+		}
+		walks++
+		ast.Inspect(rs.Body, func(m ast.Node) bool {
+			switch x := m.(type) {
+			case *ast.BranchStmt:
+				if x.Tok == token.BREAK {
+					walkAll = false
+				}
+			case *ast.ReturnStmt:
+				walkAll = false
+			case *ast.CallExpr:
+				if p.text(x.Fun) == "closeStream" {
+					noEdit = false
+				}
+			}
+			return true
+		})
+		return true
+	})
+	r.check(walks == 1 && walkAll, "flushStreams offers the new credit to every stream", p.pos(fl.Pos()), "range over the whole table, no break", "flushStreams stops walking the stream table early: a stream blocked on its own window ends the walk, and the streams behind it are never resumed by connection-level credit although both their windows are open")
+	r.check(walks == 1 && noEdit, "flushStreams does not edit the table while walking it", p.pos(fl.Pos()), "finished streams are collected, closed after the walk", "flushStreams closes a finished stream inside the walk over the table: closeStream removes it from the slice being ranged over, the next stream is skipped and stays stalled")
 	r.check(okk, "flushStreams closes the streams it finished", p.pos(fl.Pos()), "for s in done: SetState(Closed); closeStream(s)", "flushStreams no longer marks closed and closes the streams whose response it completed")
 	// the flush / resume conditions are the conjunction of the three facts
 	for _, site := range []struct {
